@@ -115,7 +115,7 @@ def site_from_traceback_text(err, repo=None):
     return exc, site or 'outside-repo'
 
 
-def inproc_main(tool, args, stdin='', timeout=30):
+def inproc_main(tool, args, stdin='', timeout=30, seed_key=None):
     """call the tool's main() inside this process with patched argv/stdio.
     returns dict rc/out/err/exc/site/timeout with the meaning a shell would observe."""
     core.import_repo()
@@ -124,7 +124,7 @@ def inproc_main(tool, args, stdin='', timeout=30):
     from cnfgen.clitools import msg
     msg._prefix = ''                       # a fresh process starts with an empty prefix
     argv = [tool] + [str(a) for a in args]
-    random.seed(zlib.crc32(repr(argv).encode()))
+    random.seed(zlib.crc32((seed_key or repr(argv)).encode()))
     out, err = _Keep(), _Keep()
     old = sys.argv, sys.stdin, sys.stdout, sys.stderr
     oldh = signal.getsignal(signal.SIGINT)
@@ -372,7 +372,8 @@ def classify(tool, args, res, fmt='auto', outfile=None, repo=None, group=''):
             return None        # help / version / tutorial text
         body = res.get('file') if outfile else text
         if body is None:
-            return ('success-without-formula:{}:{}'.format(tool, group.split(':')[0]), 'exit 0 but the output file was not written')
+            return ('success-without-formula:{}:{}'.format(tool, group.split(':')[0]),
+                    'exit 0 but no formula was written to {} (stderr: {!r})'.format(outfile, err[:100]))
         if outfile and text.strip():
             return ('stray-stdout:' + tool, 'formula sent to a file but stdout has {!r}'.format(text[:80]))
         fmts = [fmt] if fmt else ['dimacs', 'opb', 'latex']
@@ -872,7 +873,7 @@ def worker_init(fixdir):
 def eval_vector_inproc(v):
     """returns (index, verdict or None, timeout flag, rc)"""
     args = subst(v['args'], _FIXDIR)
-    res = inproc_main(v['tool'], args, v.get('stdin', ''), timeout=v.get('timeout', 25))
+    res = inproc_main(v['tool'], args, v.get('stdin', ''), timeout=v.get('timeout', 25), seed_key=repr((v['tool'], v['args'])))
     outfile = None
     for i, a in enumerate(args):
         if a in ('-o', '--output') and i + 1 < len(args):
